@@ -44,6 +44,22 @@ CHECKS['C11'] = dict(engine='Asm', tech='TLA+ spec (Asm.tla: abstract programs, 
 CHECKS['C12'] = dict(engine='Asm', tech='TLA+ spec (Asm.tla disassembler: InstrLen / Decodes / Canon / Listing) with TLC over all byte strings of length <= 2 and decoder-class families + replay through decompile_script under a watchdog (termination, listing line by line, recompile) + TLC judging of random / mutated strings, builder outputs and vectors',
                 text='The disassembler is specified as a decoder with a progress invariant (every decoded length >= 1 and inside the string) and a canonical program whose rendering is the listing; TLC checks it on every byte string of length <= 2 and on decoder-class families, and every string is fed to the real decompile_script under a watchdog (must terminate, listing or error as specified, identical lines, compile(listing) = bytes); random and mutated strings up to 70 KiB, all builder outputs and repository vectors are recorded and judged by TLC.',
                 ref='5 C12', note=PURE_NOTE)
+CHECKS['C02'] = dict(engine='SigMsg', tech='TLA+ spec (SigMsg.tla on SigMsgCore: flag-selected message, ideal signatures) with TLC over permission / selection / corruption / length families + replay with real Ed25519 signatures through the six instructions + TLC judging of random scenarios',
+                text='TLC enumerates all 256 x 256 flag / allowed-flag pairs, all presence-pattern x flag selections, corruption kinds at every field position and length variants, checks the laws (SignThenCheck, CoveredChangeFails, ExcludedChangeIrrelevant, NeverTrueWhenMalformed, CoveredExact) and prints each case with the specified verdict and message bytes; every case is concretised with real keys, independently produced signatures and bit flips and executed as a script; random scenarios with long fields are recorded and judged by TLC.',
+                ref='5 C02', note=PURE_NOTE)
+CHECKS['C03'] = dict(engine='Multisig', tech='TLA+ spec (Multisig.tla: greedy matcher state machine vs declarative quorum) with TLC over all scenarios n <= N + replay through OP_CHECK_MULTISIG(_VERIFY) with real signatures + TLC running the same machine on recorded random scenarios and builder outputs',
+                text='The instruction is specified as a state machine with one action per signature/key comparison; TLC checks TrueIffQuorum, FewerNeverPass and KeysUsedOnce on every state of every scenario (listed signers, outsider, duplicates, flag variants, malformed) and each terminal verdict is replayed with real keys and signatures; larger random scenarios and make_multisig_lock + joined witnesses are recorded and judged by TLC.',
+                ref='5 C03', note=PURE_NOTE)
+SYM_NOTE = ('Trusted: TLC/SANY, CPython, the pure-Python Ed25519 reference (cross-checked with PyNaCl), the concretisation of symbolic scenarios. Cryptographic claims are decided in a symbolic algebra (up to hash collisions / discrete-log coincidences) and exercised concretely with real keys.')
+CHECKS['C04'] = dict(engine='Merkle', tech='TLA+ spec (Merkle.tla: symbolic hashes, XOR roots, MERKLEVAL chain, byte-level Pack/Unpack, builder shapes) with TLC over all tree shapes x leaves x proof corruptions + replay with the real tree classes / builders + TLC judging of random trees',
+                text='TLC enumerates every binary tree shape up to the leaf bound, every leaf and every proof corruption and checks Complete / Binding / SwapFails / ExtraLeavesJunk / PackRoundTrip, plus the prioritized and balanced builder shapes; each case is rebuilt with the real ScriptLeaf / ScriptNode or builders and executed (which leaf ran, leftovers, authorization, pack bytes, unpack round trip); random trees up to 24 leaves with corruptions at random levels are judged by TLC.',
+                ref='5 C04', note=SYM_NOTE)
+CHECKS['C05'] = dict(engine='Taproot', tech='TLA+ spec (Taproot.tla on SymCrypto.tla) with TLC over key x script x witness classes x flags x lock kinds + replay with the real builders and an independent root computation + TLC judging of random scenarios and native vs non-native comparisons',
+                text='The taproot step is specified on a symbolic group algebra (root = P + h(P,S)); TLC checks RootBinds / KeyPathExact / ScriptPathExact / BuildersUnlock over 8 witness classes, flag classes and both lock kinds; every case is concretised with the real builders, the root bytes are recomputed with the pure-Python Ed25519, and verdict plus whether any instruction of the supplied script ran are compared; random scenarios and native vs non-native verdicts on adversarial witnesses are judged by TLC.',
+                ref='5 C05', note=SYM_NOTE)
+CHECKS['C17'] = dict(engine='Adapter', tech='TLA+ spec (Adapter.tla on SymCrypto.tla) with TLC over signer x message x tweak x alteration x decryption scalar + replay through the four adapter instructions with two independent verifiers + TLC judging of random scenarios, single-bit corruptions and the builders end to end',
+                text='Adapter signatures are specified on the symbolic algebra; TLC checks CheckHonest / CheckFailsIfAltered / DecryptVerifies / ExtractRecovers / AdapterNotASig on every case (and that the implemented private-tweak construction deviates: finding F13); every case is concretised incl. edge scalars 1 and L-1 and the decrypted signature is verified by the pure-Python RFC 8032 verifier and PyNaCl; random scenarios with single-bit corruption of each check input and the lock / witness / decrypt builders are judged by TLC.',
+                ref='5 C17', note=SYM_NOTE)
 NOT_YET = {}
 
 props = [json.loads(l) for l in open(os.path.join(ROOT, 'properties.jsonl'))]
@@ -77,6 +93,12 @@ manifest = {
         'add_only': True,
     },
     'engines': [
+        {'name': 'SymCrypto', 'path': '/verif/spec/SymCrypto.tla', 'serves_properties': ['C05', 'C17', 'C18', 'C13', 'C15'], 'kind_free_text': 'symbolic scalar / point / hash algebra'},
+        {'name': 'Merkle', 'path': '/verif/spec/Merkle.tla', 'serves_properties': ['C04'], 'kind_free_text': 'merklized script trees'},
+        {'name': 'Taproot', 'path': '/verif/spec/Taproot.tla', 'serves_properties': ['C05'], 'kind_free_text': 'taproot root and spend paths'},
+        {'name': 'Adapter', 'path': '/verif/spec/Adapter.tla', 'serves_properties': ['C17'], 'kind_free_text': 'adapter signatures'},
+        {'name': 'SigMsg', 'path': '/verif/spec/SigMsg.tla', 'serves_properties': ['C02'], 'kind_free_text': 'signature message selection and check verdicts'},
+        {'name': 'Multisig', 'path': '/verif/spec/Multisig.tla', 'serves_properties': ['C03'], 'kind_free_text': 'greedy multisig matcher as a state machine'},
         {'name': 'Asm', 'path': '/verif/spec/Asm.tla', 'serves_properties': ['C11', 'C12', 'C20'], 'kind_free_text': 'assembler / disassembler: abstract programs, documented encoding, renderings, decoder, listing; AsmMC.tla = families and trace judging'},
         {'name': 'Registry', 'path': '/verif/spec/Registry.tla', 'serves_properties': ['C19'], 'kind_free_text': 'extension registries as a history machine'},
         {'name': 'Codec', 'path': '/verif/spec/Codec.tla', 'serves_properties': ['C10'], 'kind_free_text': 'integer / float32 encodings on byte sequences (BigInt.tla limb arithmetic)'},
